@@ -18,6 +18,12 @@ C13  one clf.exchange() per (driver x target kind x host command index k x statu
      the ACK of the RF exchange command -> TimeoutError (exchange() docstring); status 29h (released by the
      initiator; RC-S956 also 31h RF-off) of TgGetInitiatorCommand -> BrokenLinkError; CIU RFOffIRq while a
      FeliCa listen target -> BrokenLinkError.
+     RF status clause, at the commands that hand RF data to / fetch it from the chip (InCommunicateThru,
+     InDataExchange, TgGetInitiatorCommand, TgResponseToInitiator; TgGetData/TgSetData are never used by
+     exchange()): every status value is sent bare and (quick: a structured subset, thorough: all) followed by the
+     octets the regular response has behind the status; status 00h must come back as exactly the reference
+     data, an error status (the whole byte; for InDataExchange/TgGetData the six bit error code, bits 7/6 being
+     the NAD/MI flags) must never come back as received data.
 C14  (a) every frame a Chipset.command() writes is valid under vf.ref.frames and carries exactly the payload
      (b) a mutated response is returned as data only if vf.ref.frames calls it a valid response to that
          command with that data; everything else must raise IOError (Chipset.Error only for a checksum-valid
@@ -26,6 +32,14 @@ C14  (a) every frame a Chipset.command() writes is valid under vf.ref.frames and
          side CRC checks (Type 2 Tag READ through InCommunicateThru, Type 1 Tag READ8 through the CIU) never
          return a frame with a wrong CRC as data; the same for Type 2 Tag platform targets of every SEL_RES value
          with (SEL_RES & 60h) == 0 (run_selres_crc), where intact frames must come back without the CRC octets.
+     (d) what the driver hands to the chip for transmission is the caller's command followed by the ISO CRC of
+         exactly that command where the driver appends it in software (Type 1 Tag READ8/WRITE-E8/WRITE-NE8/RSEG
+         octet-wise through the CIU on PN532/PN533: CRC_B) and the bare command where chip hardware/firmware
+         appends it (InCommunicateThru with TxCRCEn, InDataExchange; a command || CRC_A/CRC_B reference is ready
+         for a driver that clears TxCRCEn) - for the first transmission and for every retransmission of the *same
+         bytearray object* after a time-out, a CRC error, a host-link error or a success, through clf.exchange()
+         and through the real retry loop of nfc.tag.tt1.Type1Tag.transceive (run_retx).  "The driver leaves the
+         caller's buffer unchanged" is recorded as an observation only (retx_caller_buffer_modified).
 """
 import random
 
@@ -42,6 +56,8 @@ ASSUMPTIONS = [
     "a transport exception while the command frame is written or the ACK frame awaited (any errno, ETIMEDOUT included), and a transport exception other than ETIMEDOUT while the response is awaited, is a host-link failure and must be reported as IOError; only errors nfc/clf/transport.py can raise at that point are injected (USB read ETIMEDOUT/EIO/ENODEV, USB write EIO/ENODEV, serial additionally IOError without errno from pyserial)",
     "the CIU appends/verifies CRC_A for InCommunicateThru at 106 kbps Type A exactly when CIU_TxMode.TxCRCEn / CIU_RxMode.RxCRCEn (bit 7) are set, reports a failed check as status 02h, and hands the received octets over unchanged when RxCRCEn is clear",
     "C13 finer clauses: PN53x status 01h and a silent chip after ACK mean time-out; status 29h (RC-S956 also 31h) of TgGetInitiatorCommand and CIU_DivIRq.RFOffIRq mean the remote side left",
+    "C13 RF status clause: the status byte of InCommunicateThru, TgGetInitiatorCommand, TgResponseToInitiator and TgSetData is an error code as a whole (00h = success); only InDataExchange and TgGetData carry the NAD (bit 7) and MI (bit 6) flags in front of a six bit error code (PN532 UM 7.1); with an error status the octets behind the status byte are chip buffer content, not data received from the other side",
+    "C14 on-air clause: a Type 1 Tag command frame is the command code with its operands and UID echo (7 octets; 14 for READ8/WRITE-E8/WRITE-NE8) followed by the CRC_B of exactly those octets; no tag answers anything else; the command the caller wants on air is what the buffer held when the caller built it (before the first exchange() with that object)",
 ]
 
 DRIVERS = ["pn531", "pn532", "pn533", "rcs956", "acr122", "arygonA", "arygonB", "pn532rt"]
@@ -67,7 +83,12 @@ RULE_C13 = ("cell = (driver in pn531/pn532/pn533/rcs956/acr122/arygonA/arygonB/p
             "must surface as IOError and nothing else, at every k including the RF command, as initiator and as target; "
             "the same transport-level faults and the surplus responses are also injected at every host command of the "
             "real clf.sense()/clf.listen() that enters the target kind; distinct by "
-            "(stage, driver, kind, k, action); non-trivial if the scripted action was actually delivered by the simulator")
+            "(stage, driver, kind, k, action); non-trivial if the scripted action was actually delivered by the simulator; "
+            "RF status clause: at every command of the exchange that hands RF data to or fetches it from the chip "
+            "(InCommunicateThru, InDataExchange, TgGetInitiatorCommand, TgResponseToInitiator) all 256 status values "
+            "bare + status values followed by the regular response's octets (quick: flag-bit-only 40h/80h/C0h, single "
+            "bits, documented error codes, field borders; thorough: all 255): 00h -> exactly the reference data, error "
+            "status -> never data")
 RULE_C14 = ("command side: every command code of each chipset table x payload lengths (quick: 0..6, 250..270, max-2..max, "
             "random; thorough: every length) x random contents, frame validated and compared with the payload; response "
             "side: valid responses of many lengths x every single-bit flip, every truncation, extensions, sum-preserving "
@@ -75,7 +96,11 @@ RULE_C14 = ("command side: every command code of each chipset table x payload le
             "random, all single-bit corruptions, driver-side T2T/T1T CRC checks; Type 2 Tag platform targets found by the "
             "real sense() for all 64 SEL_RES values with (SEL_RES & 60h) == 0 and six ISO-DEP/NFC-DEP ones (thorough: all "
             "256) x intact / bit-flipped (all bits for 00h and 8 named values, 20 sampled otherwise) / substituted on-air "
-            "answers against a CIU model that checks CRC_A exactly when RxCRCEn is set; distinct by the bytes of the case")
+            "answers against a CIU model that checks CRC_A exactly when RxCRCEn is set; distinct by the bytes of the case; "
+            "on-air frames: (driver x initiator target kind x command variant incl. T1T READ8/WRITE-E8/WRITE-NE8/RSEG on "
+            "the software CRC_B path) x attempt schedules (mute|badcrc|host-link fault|success, then the same bytearray "
+            "object again, up to 3 attempts) through clf.exchange() and nfc.tag.tt1 read_block/write_block/read_segment "
+            "retry loops; every frame handed to the chip for transmission compared with command || reference CRC")
 FRAME_DRIVERS = [d for d in DRIVERS if d != "acr122"]           # ACK phase exists; listen is supported
 REQUIRED_C13 = (["%s_c13_exchanges" % d for d in DRIVERS] + ["%s_c13_cells" % d for d in DRIVERS] +
                 ["%s_c13_truncations_delivered" % d for d in DRIVERS] + ["pn53x_sim_selftest_frames"] +
@@ -85,12 +110,21 @@ REQUIRED_C13 = (["%s_c13_exchanges" % d for d in DRIVERS] + ["%s_c13_cells" % d 
                 ["%s_c13_hostlink_sense_checked" % d for d in DRIVERS] +
                 ["%s_c13_hostlink_ack_at_rf_command" % d for d in FRAME_DRIVERS] +
                 ["%s_c13_hostlink_as_target_checked" % d for d in FRAME_DRIVERS] +
-                ["%s_c13_hostlink_listen_checked" % d for d in FRAME_DRIVERS])
+                ["%s_c13_hostlink_listen_checked" % d for d in FRAME_DRIVERS] +
+                ["%s_c13_rf_status_with_payload_checked" % d for d in DRIVERS] +
+                ["%s_c13_error_status_never_data_checked" % d for d in DRIVERS] +
+                ["%s_c13_error_status_flag_bits_only_checked" % d for d in DRIVERS] +
+                ["%s_c13_status00_data_checked" % d for d in DRIVERS] +
+                ["pn53x_c13_rf_status_sweep_%s" % c for c in ("InCommunicateThru", "InDataExchange", "TgGetInitiatorCommand",
+                                                               "TgResponseToInitiator")])
 REQUIRED_C14 = (["%s_frames_validated" % d for d in DRIVERS] + ["%s_responses_mutated" % d for d in DRIVERS] +
                 ["%s_t2t_crc_cases" % d for d in DRIVERS] + ["pn53x_crc_cases", "pn53x_crc_bitflips", "pn53x_sim_selftest_frames"] +
                 ["%s_t2t_selres_tt2_nonzero_cells" % d for d in DRIVERS] +
                 ["%s_t2t_selres_tt2_nonzero_crc_cases" % d for d in DRIVERS] +
-                ["%s_t2t_selres_iso_or_dep_crc_cases" % d for d in DRIVERS])
+                ["%s_t2t_selres_iso_or_dep_crc_cases" % d for d in DRIVERS] +
+                ["%s_retx_same_buffer_frames" % d for d in DRIVERS] +
+                ["%s_retx_same_buffer_sw_crc_b_frames" % d for d in DRIVERS if "t1t-read8" in SUPPORT[d]] +
+                ["pn53x_tt1_retry_loop_retransmissions"])
 
 
 # ---------------------------------------------------------------------------------------------------------
@@ -132,7 +166,9 @@ def kind_info(kind, variant=0):
                                ("rats", H("E080"), 0.03)]),
         "t1t": ("ini", "t1t", [("rall", H("000000b2565400"), 0.1), ("read", H("010800b2565400"), 0.1),
                                ("write-e", H("530855b2565400"), 0.1)]),
-        "t1t-read8": ("ini", "t1t", [("read8", H("02030000000000000000b2565400"), 0.1)]),
+        "t1t-read8": ("ini", "t1t", [("read8", H("02030000000000000000b2565400"), 0.1),
+                                     ("write-e8", H("5405a0a1a2a3a4a5a6a7b2565400"), 0.1),
+                                     ("write-ne8", H("1b060102040810204080b2565400"), 0.1)]),
         "106b": ("ini", "106b", [("select", H("0200A4040007D276000085010100"), 0.1), ("big", H("0300B00000") + big[:247], 0.1)]),
         "212f": ("ini", "212f", [("read", H("1006" + idm + "010b00018000"), 0.1), ("read-1s", H("1006" + idm + "010b00018000"), 1.0)]),
         "424f": ("ini", "424f", [("read", H("1006" + idm + "010b00018000"), 0.1)]),
@@ -1005,7 +1041,10 @@ def crc_compare(R, msg, dev):
                                 ("crc_b", dev.add_crc_b, dev.check_crc_b, refcrc.crc_b)):
         want = msg + ref(msg)
         try:
-            got = bytes(add(bytearray(msg)))
+            buf = bytearray(msg)
+            got = bytes(add(buf))
+            if bytes(buf) != msg:
+                R.count("pn53x_crc_add_modifies_argument")       # observation (explains tx-frame witnesses)
             acc = chk(bytearray(want))
         except Exception as e:      # noqa
             R.violation("crc/%s/escape/%s" % (name, exc_sig(e)), "%s helper raised %r" % (name, e), case)
@@ -1252,6 +1291,211 @@ def run_driver_crc(R, driver, tier, rng, only=None):
         R.count("%s_crc_b_tx_checked" % driver, sim.crc_b_tx[0])
 
 
+# ---- retransmission of the same command buffer ------------------------------------------------------------------
+# what the drivers are told to put on air must be the caller's command followed by the ISO/IEC 14443-3 CRC of exactly
+# that command - on the first transmission and on every later one of the *same bytearray object* (the retry loops of
+# nfc.tag.tt1/tt2 re-send the object they were given after a time-out or transmission error)
+RETX_SCHEDULES = [["mute", None], ["badcrc", None], ["mute", "badcrc", None], [None, None], ["hostfault", None]]
+RETX_KINDS = ["t1t-read8", "t1t", "t2t", "t4a", "106b", "212f", "dep106", "dep424"]
+RETX_EXTRA = {"t1t-read8": [("rseg", H("10100000000000000000b2565400"), 0.1)]}      # 16 READ8 through the CIU per exchange
+
+
+def allowed_on_air(cmd, path, hwcrc, fkind):
+    """-> (set of octet strings the host may hand to the chip for transmission of caller command cmd, clause name);
+    None when the monitor has no CRC reference for the path (FeliCa / NFC-DEP frames without the chip's CRC)"""
+    cmd = bytes(cmd)
+    if path == "ciu":                                   # Type 1 Tag command octet by octet: CRC_B by software
+        if cmd[:1] == b"\x10":                          # RSEG is emulated with 16 READ8 commands
+            seg = (cmd[1] >> 4) * 16
+            return {refcrc.append_crc_b(bytes([0x02, b]) + cmd[2:]) for b in range(seg, seg + 16)}, "sw-crc_b"
+        return {refcrc.append_crc_b(cmd)}, "sw-crc_b"
+    if path == "dx" or hwcrc:                           # firmware / CIU appends the CRC: the command as it is
+        return {cmd}, "hw-crc"
+    if fkind in ("t2t", "t4a"):
+        return {refcrc.append_crc_a(cmd)}, "sw-crc_a"
+    if fkind == "106b":
+        return {refcrc.append_crc_b(cmd)}, "sw-crc_b"
+    return None, "unjudged"
+
+
+def on_air_mismatch(octets, allowed, cmd):
+    """structural name of how a transmitted frame differs from command || CRC"""
+    octets, cmd = bytes(octets), bytes(cmd)
+    if any(octets.startswith(a) and len(octets) > len(a) for a in allowed):
+        return "surplus-octets-after-crc"
+    if any(len(octets) == len(a) and octets[:-2] == a[:-2] for a in allowed if len(a) > len(cmd)):
+        return "crc-value"
+    if octets == cmd:
+        return "crc-missing"
+    return "command-octets"
+
+
+def judge_on_air(R, driver, cell, cmd, frames, when, via, case, buf_modified):
+    """the C14 on-air clause for the frames of one exchange; True if a violation was recorded"""
+    bad = False
+    for path, octets, hwcrc in frames:
+        allowed, clause = allowed_on_air(cmd, path, hwcrc, cell.fkind)
+        R.count("%s_retx_frames_%s" % (driver, clause.replace("-", "_")))
+        if when != "first":
+            R.count("%s_retx_same_buffer_frames" % driver)
+            if clause.startswith("sw-"):
+                R.count("%s_retx_same_buffer_%s_frames" % (driver, clause.replace("-", "_")))
+        if via == "tt1":
+            R.count("pn53x_tt1_retry_loop_frames")
+        if allowed is None or octets in allowed:
+            continue
+        how = on_air_mismatch(octets, allowed, cmd)
+        R.violation("%s/tx-frame/%s/%s/%s" % (driver, clause, how, when),
+                    "%s %s: transmission (%s) of the command %s put %s on air (%s path), not command || CRC%s" % (
+                        driver, cell.kind, when, bytes(cmd).hex()[:40], bytes(octets).hex()[:60], path,
+                        "; the driver had changed the caller's buffer" if buf_modified else ""), case)
+        bad = True
+    return bad
+
+
+def retx_trial(R, driver, cell, label, cmd, tmo, schedule, n_ref, via="exchange"):
+    """one command buffer object sent len(schedule) times through clf.exchange(); schedule says what happens to each
+    attempt ("mute": the tag does not hear it, "badcrc": the answer arrives with a broken CRC, "hostfault": the host
+    link fails at the last host command, None: nothing)"""
+    import nfc.clf
+    from vf.sim.chipsets import pn53x as S
+    cmd = bytes(cmd)
+    case = {"family": "pn53x_family", "part": "retx", "driver": driver, "kind": cell.kind, "label": label, "cmd": cmd,
+            "tmo": tmo, "schedule": list(schedule), "via": via}
+    cell.reset()
+    fld = cell.sim.st.field
+    fld.air = []
+    buf = bytearray(cmd)
+    R.case(("retx", driver, cell.kind, label, tuple(schedule), via))
+    R.count("%s_retx_sequences" % driver)
+    modified = False
+    outcomes = []
+    for i, ev in enumerate(schedule):
+        seen = len(fld.air)
+        fld.air_script = [ev] if ev in ("mute", "badcrc") else []       # hits the first transmission of the attempt
+        cell.sim.script = {n_ref: ["fault", "eio" if cell.sim.link == "ccid" else "eio@rsp"]} if ev == "hostfault" else {}
+        cell.sim.mark()
+        try:
+            r = cell.clf.exchange(buf, tmo)
+            out = ("data", bytes(r)) if isinstance(r, (bytes, bytearray)) else ("other", repr(r)[:20])
+        except nfc.clf.CommunicationError as e:
+            out = ("comm", type(e).__name__)
+        except OSError as e:
+            out = ("ioerror", e.errno)
+        except S.SimBound as e:
+            R.inconc("%s: simulator command bound in the retransmission workload: %s" % (driver, e))
+            return
+        except Exception as e:       # noqa  (which exception escapes is C13's matter; the frames are still judged)
+            out = ("escape", type(e).__name__)
+        outcomes.append(out[0] if out[0] != "comm" else out[1])
+        frames = fld.air[seen:]
+        now_modified = bytes(buf) != cmd
+        if now_modified and not modified:
+            R.count("%s_retx_caller_buffer_modified" % driver)
+            R.seen("pn53x_retx_caller_buffer_modified", "%s/%s/%s: +%d octets" % (driver, cell.kind, label, len(buf) - len(cmd)))
+        modified = modified or now_modified
+        when = "first" if i == 0 else "retransmit-same-buffer"
+        R.count("%s_retx_exchanges" % driver)
+        if judge_on_air(R, driver, cell, cmd, frames, when, via, case, modified):
+            return
+        if i > 0 and not frames:
+            R.count("%s_retx_nothing_on_air" % driver)
+    if not modified:
+        R.count("%s_retx_caller_buffer_intact" % driver)
+    R.seen("pn53x_retx_outcomes", "%s/%s/%s: %s" % (cell.kind, label, "-".join(str(e) for e in schedule), ">".join(outcomes)))
+    if schedule[-1] is None and outcomes[-1] == "data":
+        R.count("%s_retx_recovered" % driver)
+
+
+def tt1_loop_trial(R, driver, cell, op, schedule):
+    """the same through the real retry loop of nfc.tag.tt1.Type1Tag.transceive (3 attempts with one command object)"""
+    import nfc.tag.tt1
+    from vf.sim.chipsets import pn53x as S
+    cell.reset()
+    fld = cell.sim.st.field
+    fld.air = []
+    fld.air_script = list(schedule)
+    uid = bytes(cell.clf.target.rid_res[2:6])
+    blk = bytes(range(0x31, 0x39))
+    cmd = {"read_block": bytes([0x02, 3]) + bytes(8) + uid, "write_block": bytes([0x54, 7]) + blk + uid,
+           "write_block_ne": bytes([0x1B, 7]) + blk + uid, "read_segment": bytes([0x10, 0x10]) + bytes(8) + uid}[op]
+    case = {"family": "pn53x_family", "part": "retx", "driver": driver, "kind": cell.kind, "label": op, "cmd": cmd,
+            "schedule": list(schedule), "via": "tt1"}
+    R.case(("retx-tt1", driver, op, tuple(schedule)))
+    R.count("%s_retx_sequences" % driver)
+    try:
+        tag = nfc.tag.tt1.Type1Tag(cell.clf, cell.clf.target)
+        if op == "read_block":
+            got = ("data", bytes(tag.read_block(3)))
+        elif op == "read_segment":
+            got = ("data", bytes(tag.read_segment(1))[:4])
+        else:
+            got = ("data", tag.write_block(7, bytearray(blk), erase=(op == "write_block")))
+    except nfc.tag.tt1.Type1TagCommandError as e:
+        got = ("tag-error", str(e))
+    except S.SimBound as e:
+        R.inconc("%s: simulator command bound in the tt1 retry loop workload: %s" % (driver, e))
+        return
+    except Exception as e:       # noqa
+        got = ("escape", type(e).__name__)
+    frames = list(fld.air)
+    if op != "read_segment":
+        R.count("pn53x_tt1_retry_loop_retransmissions", max(0, len(frames) - 1))
+    R.seen("pn53x_tt1_retry_loop_outcomes", "%s/%s: %s after %d transmissions" % (op, "-".join(str(e) for e in schedule), got[0], len(frames)))
+    if judge_on_air(R, driver, cell, cmd, frames[:1], "first", "tt1", case, False):
+        return
+    if judge_on_air(R, driver, cell, cmd, frames[1:], "retransmit-same-buffer" if op != "read_segment" else "rseg-loop", "tt1", case, False):
+        return
+    if got[0] == "data":
+        R.count("%s_retx_recovered" % driver)
+
+
+def run_retx(R, driver, tier, rng, only=None):
+    for kind in RETX_KINDS:
+        if kind not in SUPPORT[driver]:
+            continue
+        if only is not None and only["kind"] != kind:
+            continue
+        cell = Cell(driver, kind, 0, R, "c14")
+        if not cell.ok:
+            if not cell.init_failed:
+                R.inconc("%s: cannot enter %s for the retransmission check" % (driver, kind))
+            continue
+        variants = kind_info(kind, "all")[2] + RETX_EXTRA.get(kind, [])
+        if only is not None:
+            if only.get("via") == "tt1":
+                tt1_loop_trial(R, driver, cell, only["label"], list(only["schedule"]))
+                continue
+            variants = [(only["label"], only["cmd"], only.get("tmo", 0.1))]
+        for label, cmd, tmo in variants:
+            if cmd is None or len(cmd) > 64 or tmo > 1.0:
+                continue
+            # reference: the command in a fresh buffer, to learn the number of host commands and that it works
+            cell.reset()
+            cell.sim.st.field.air = []
+            cell.sim.mark()
+            try:
+                ref = cell.clf.exchange(bytearray(cmd), tmo)
+            except Exception as e:      # noqa
+                R.inconc("%s/%s/%s: reference exchange of the retransmission workload failed: %r" % (driver, kind, label, e))
+                continue
+            n_ref = cell.sim.since_mark()
+            if not isinstance(ref, (bytes, bytearray)) or not cell.sim.st.field.air:
+                R.inconc("%s/%s/%s: reference exchange of the retransmission workload put nothing on air" % (driver, kind, label))
+                continue
+            scheds = RETX_SCHEDULES if only is None else [list(only["schedule"])]
+            if only is None and tier == "quick" and label == "rseg":
+                scheds = RETX_SCHEDULES[:1]
+            for sch in scheds:
+                retx_trial(R, driver, cell, label, cmd, tmo, sch, n_ref)
+        if kind == "t1t-read8" and only is None:
+            for op in ("read_block", "write_block", "write_block_ne", "read_segment"):
+                for sch in (["mute"], ["badcrc"], ["mute", "mute"], []):
+                    if op == "read_segment" and sch not in (["mute"], []):
+                        continue
+                    tt1_loop_trial(R, driver, cell, op, sch)
+
+
 def plan_c14(tier):
     descs = []
     groups = [["pn531", "arygonA"], ["pn532", "arygonB"], ["pn533", "pn532rt"], ["rcs956"], ["acr122"]]
@@ -1263,6 +1507,7 @@ def plan_c14(tier):
         descs.append({"part": "drvcrc", "drivers": DRIVERS, "timeout": 300})
         descs.append({"part": "selres", "drivers": DRIVERS[0::2], "timeout": 300})
         descs.append({"part": "selres", "drivers": DRIVERS[1::2], "timeout": 300})
+        descs.append({"part": "retx", "drivers": DRIVERS, "timeout": 300})
     else:
         for d in DRIVERS:
             descs.append({"part": "driver", "drivers": [d], "reps": 2, "timeout": 1500})
@@ -1273,6 +1518,7 @@ def plan_c14(tier):
         descs[-2]["drivers"], descs[-1]["drivers"] = DRIVERS[0::2], DRIVERS[1::2]
         for d in DRIVERS:
             descs.append({"part": "selres", "drivers": [d], "timeout": 1500})
+        descs.append({"part": "retx", "drivers": DRIVERS, "timeout": 1500})
     return descs
 
 
@@ -1292,6 +1538,9 @@ def run_c14(desc, R, rng):
     elif desc["part"] == "selres":
         for d in desc["drivers"]:
             run_selres_crc(R, d, tier, rng)
+    elif desc["part"] == "retx":
+        for d in desc["drivers"]:
+            run_retx(R, d, tier, rng)
     R.exhaustive = False
 
 
@@ -1314,3 +1563,5 @@ def replay_c14(case, R):
         run_driver_crc(R, case["driver"], "quick", rng, only=case)
     elif part == "init":
         safe_make(R, case["driver"], "c14")
+    elif part == "retx":
+        run_retx(R, case["driver"], "quick", rng, only=case)
